@@ -29,6 +29,35 @@ type planDest struct {
 	Gated bool `json:"gated,omitempty"`
 	// Port0: the target's IP with port 0 - a datagram the relay's outbound socket cannot send (EINVAL).
 	Port0 bool `json:"port0,omitempty"`
+	// SetupFail ("reject" | "badclient", with AltPort): the IP of target Sock with the port of that target's
+	// second socket. A route of the server sends sessions that START with this port to the reject client /
+	// to an outbound client whose NewSession always fails, so a client socket (ss2022: a session) whose
+	// first datagram goes here gets no relay session (round 6).
+	SetupFail string `json:"setupFail,omitempty"`
+}
+
+// planCrowd (round 6): after Fails failed session set-ups (fresh client addresses / ss2022 sessions whose
+// first datagram cannot get a relay session), the first Clients sessions of the plan - established and
+// idle - each write N[i] datagrams back to back, all at the same time. Every one of them must be observed
+// at its destination exactly once, byte for byte.
+type planCrowd struct {
+	Clients  int   `json:"clients"`
+	N        []int `json:"n"`
+	Fails    int   `json:"fails"`
+	FailKind int   `json:"failKind"` // 0 none | failReject | failBadClient | failUpstreamDown
+	Fill     int   `json:"fill"`
+	GapMs    int   `json:"gapMs"`
+}
+
+// kinds of failing session set-up
+const (
+	failReject       = 1 // the router rejects the first datagram's target
+	failBadClient    = 2 // the route's client cannot create a session (unresolvable upstream name, dead SOCKS5 upstream)
+	failUpstreamDown = 3 // the default client cannot create a session for a while (its upstream's name does not resolve / its SOCKS5 upstream refuses the association)
+)
+
+func failKindName(k int) string {
+	return [...]string{"none", "reject", "badclient", "upstream-down"}[k]
 }
 
 // tourStops are the destinations one session walks through (a single NAT / ss2022 session that
@@ -43,7 +72,9 @@ type planOp struct {
 	// then N more datagrams, then the answer is released; afterwards a few datagrams back to back.
 	// paced | burst | rebind | tour | relayswitch (send to another client-facing address of the relay, one
 	// echo, then a burst of replies) | freshburst (new client socket, burst of N datagrams of which some are
-	// addressed to the unsendable destination Alt, then a paced datagram)
+	// addressed to the unsendable destination Alt, then a paced datagram) | interleave (round 6: this session
+	// gets an echo, ANOTHER client sends through another local address of the wildcard listener, then the
+	// destination sends N more replies to this session: they must leave from the address this session uses)
 	Kind string     `json:"kind"`
 	Dest int        `json:"dest"` // index into Dests
 	Alt  int        `json:"alt"`  // second dest; paced/burst alternate Dest, Alt
@@ -63,6 +94,16 @@ type planSession struct {
 	// socks5 and none servers, this session's own first ss2022 packet with a flipped bit for ss2022
 	// servers. The valid datagrams that follow from the same address must get a working session.
 	GarbageFirst int `json:"garbageFirst,omitempty"`
+	// FailFirst (round 6; failReject | failBadClient | failUpstreamDown): the first well-formed datagram of
+	// every client socket of this session (ss2022: of the session) cannot get a relay session; the valid
+	// datagrams that follow from the same socket / session must be relayed and answered.
+	FailFirst int `json:"failFirst,omitempty"`
+	// Home: which client-facing address of a wildcard listener the session talks to first (index into the
+	// relay's addresses 127.0.0.1, .2, .3 and - dual-stack listener - ::1).
+	Home int `json:"home,omitempty"`
+	// D1, D2: the session's two ordinary destinations (used by the crowd phase).
+	D1 int `json:"d1"`
+	D2 int `json:"d2"`
 }
 
 type plan struct {
@@ -93,7 +134,21 @@ type plan struct {
 	// Wildcard: "" | "0.0.0.0" | "[::]": the listener is bound to the wildcard address and clients use
 	// several local addresses of the relay (127.0.0.1, .2, .3).
 	Wildcard string `json:"wildcard,omitempty"`
+
+	// round 6: set-ups that fail
+	// RejectDest / BadDest: indexes of the SetupFail destinations (0 = none; servers that let the client name the target).
+	RejectDest int `json:"rejectDest,omitempty"`
+	BadDest    int `json:"badDest,omitempty"`
+	// BadClient: what the outbound client behind BadDest is: none-nxname | ss2022-nxname | socks5-dead.
+	BadClient string `json:"badClient,omitempty"`
+	// UpName (peer topology): the relay's client reaches the harness upstream by NAME; UpFail says how the
+	// upstream is made unavailable for failUpstreamDown: nxdomain | servfail | assoc-failure (socks5 client).
+	UpName bool       `json:"upName,omitempty"`
+	UpFail string     `json:"upFail,omitempty"`
+	Crowd  *planCrowd `json:"crowd,omitempty"`
 }
+
+var badClientKinds = []string{"none-nxname", "ss2022-nxname", "socks5-dead"}
 
 var serverProtos = []string{"socks5", "none", "direct", "2022-blake3-aes-128-gcm", "2022-blake3-aes-256-gcm"}
 var clientProtos = []string{"direct", "socks5", "none", "2022-blake3-aes-128-gcm", "2022-blake3-aes-256-gcm"}
@@ -158,6 +213,21 @@ func drawPlan(rt *rapid.T) *plan {
 		port0 = len(p.Dests)
 		p.Dests = append(p.Dests, planDest{Sock: 0, Port0: true})
 	}
+	if p.ServerProto != "direct" {
+		p.RejectDest = len(p.Dests)
+		p.Dests = append(p.Dests, planDest{Sock: 0, AltPort: true, SetupFail: "reject"})
+		p.BadDest = len(p.Dests)
+		p.Dests = append(p.Dests, planDest{Sock: 1, AltPort: true, SetupFail: "badclient"})
+		p.BadClient = rapid.SampledFrom(badClientKinds).Draw(rt, "badClient")
+	}
+	if p.Topology == "peer" {
+		p.UpName = rapid.Bool().Draw(rt, "upName")
+		fails := []string{"nxdomain", "servfail"}
+		if p.ClientProto == "socks5" {
+			fails = append(fails, "assoc-failure", "assoc-failure")
+		}
+		p.UpFail = rapid.SampledFrom(fails).Draw(rt, "upFail")
+	}
 	nSess := rapid.IntRange(1, 8).Draw(rt, "nSessions")
 	usesDirectOut := p.Topology == "direct" || p.Topology == "chain"
 	nameSessions := 0
@@ -196,7 +266,8 @@ func drawPlan(rt *rapid.T) *plan {
 				case k < 7:
 					ops = append(ops, planOp{Kind: "burst", Dest: d1, Alt: d2, N: rapid.IntRange(2, 40).Draw(rt, "burstN"), Fill: drawFill(rt)})
 				case k == 7 && p.Wildcard != "":
-					ops = append(ops, planOp{Kind: "relayswitch", Dest: d1, Alt: d1, N: rapid.IntRange(4, 32).Draw(rt, "replyBurst"), Fill: drawFill(rt)})
+					kind := rapid.SampledFrom([]string{"relayswitch", "interleave"}).Draw(rt, "wildcardOp")
+					ops = append(ops, planOp{Kind: kind, Dest: d1, Alt: d1, N: rapid.IntRange(4, 32).Draw(rt, "replyBurst"), Fill: drawFill(rt)})
 				case k == 8 && port0 >= 0:
 					ops = append(ops, planOp{Kind: "freshburst", Dest: d1, Alt: port0, N: rapid.IntRange(6, 40).Draw(rt, "freshBurstN"), Fill: drawFill(rt)})
 				default:
@@ -258,10 +329,51 @@ func drawPlan(rt *rapid.T) *plan {
 		if p.ServerProto != "direct" && rapid.IntRange(0, 9).Draw(rt, "garbageFirst") < 4 {
 			ps.GarbageFirst = 1 + rapid.IntRange(0, len(garbageKinds(p.ServerProto))-1).Draw(rt, "garbageFirstKind")
 		}
+		// round 6: the first datagram of each client socket / of the session cannot get a relay session
+		switch ff := rapid.IntRange(0, 9).Draw(rt, "failFirst"); {
+		case ff < 2 && p.RejectDest > 0:
+			ps.FailFirst = failReject
+		case ff < 4 && p.BadDest > 0:
+			ps.FailFirst = failBadClient
+		case ff < 6 && p.UpName:
+			ps.FailFirst = failUpstreamDown
+		}
+		if p.Wildcard != "" {
+			ps.Home = rapid.IntRange(0, 3).Draw(rt, "home")
+			// another client's datagram between this session's datagram and more replies for this session
+			if rapid.IntRange(0, 9).Draw(rt, "interleave") < 4 {
+				op := planOp{Kind: "interleave", Dest: d1, Alt: d1, N: rapid.IntRange(4, 32).Draw(rt, "interleaveReplies"), Fill: drawFill(rt)}
+				if rapid.Bool().Draw(rt, "interleaveInA") {
+					ps.A = append(ps.A, op)
+				} else {
+					ps.B = append(ps.B, op)
+				}
+			}
+		}
+		ps.D1, ps.D2 = d1, d2
 		p.Sessions = append(p.Sessions, ps)
 	}
 	if len(p.Sessions) == 0 {
 		p.Sessions = append(p.Sessions, planSession{A: []planOp{{Kind: "paced", Dest: p.Dests[p.TunnelDest].Sock, Alt: p.Dests[p.TunnelDest].Sock, N: 1}}})
+	}
+	// round 6: bursts of several established sessions at the same time, right after failed set-ups
+	if len(p.Sessions) >= 2 && rapid.IntRange(0, 9).Draw(rt, "crowd") < 5 {
+		c := &planCrowd{Clients: rapid.IntRange(2, 6).Draw(rt, "crowdClients"), Fails: rapid.IntRange(1, 4).Draw(rt, "crowdFails"),
+			Fill: drawFill(rt), GapMs: rapid.SampledFrom([]int{0, 0, 1, 5}).Draw(rt, "crowdGap")}
+		var kinds []int
+		if p.RejectDest > 0 {
+			kinds = append(kinds, failReject, failBadClient)
+		}
+		if p.UpName {
+			kinds = append(kinds, failUpstreamDown)
+		}
+		if len(kinds) > 0 {
+			c.FailKind = rapid.SampledFrom(kinds).Draw(rt, "crowdFailKind")
+		}
+		for i := 0; i < c.Clients; i++ {
+			c.N = append(c.N, rapid.SampledFrom([]int{20, 33, 64, 65, 100, 150, 200}).Draw(rt, "crowdN"))
+		}
+		p.Crowd = c
 	}
 	kinds := garbageKinds(p.ServerProto)
 	if len(kinds) > 0 {
@@ -281,7 +393,10 @@ func drawPlan(rt *rapid.T) *plan {
 
 func (p *plan) class() string {
 	names, rebind, burst, tour, backlog := 0, false, false, false, false
+	ff, interleave, homes := [4]bool{}, false, map[int]bool{}
 	for _, s := range p.Sessions {
+		ff[s.FailFirst] = true
+		homes[s.Home] = true
 		for _, ops := range [][]planOp{s.A, s.B} {
 			for _, o := range ops {
 				switch o.Kind {
@@ -290,6 +405,7 @@ func (p *plan) class() string {
 				case "burst":
 					burst = true
 				}
+				interleave = interleave || o.Kind == "interleave"
 				if o.Kind == "tour" || o.Kind == "backlog" {
 					names++
 					tour = tour || o.Kind == "tour"
@@ -304,7 +420,12 @@ func (p *plan) class() string {
 	if names > 0 {
 		nb = "names+"
 	}
-	return fmt.Sprintf("%s|eih=%v|%s|rb=%d,%d|%s|ceih=%v|%s|sess=%d|socks=%d|v6=%v|%s|rebind=%v|burst=%v|g=%d|alt=%d|tour=%v|drop=%d|to=%v|wild=%s|cap=%d|backlog=%v",
+	crowd := "-"
+	if p.Crowd != nil {
+		crowd = fmt.Sprintf("%d/%s", min(p.Crowd.Clients, len(p.Sessions)), failKindName(p.Crowd.FailKind))
+	}
+	return fmt.Sprintf("%s|eih=%v|%s|rb=%d,%d|%s|ceih=%v|%s|sess=%d|socks=%d|v6=%v|%s|rebind=%v|burst=%v|g=%d|alt=%d|tour=%v|drop=%d|to=%v|wild=%s|cap=%d|backlog=%v|ff=%v%v%v|homes=%d|il=%v|crowd=%s",
 		p.ServerProto, p.ServerEIH, p.BatchMode, p.RelayBatch, p.RecvBatch, p.ClientProto, p.ClientEIH, p.Topology,
-		len(p.Sessions), p.NSock, p.V6, nb, rebind, burst, len(p.Garbage), p.AltEvery, tour, p.DropFirst, p.TargetOnly, p.Wildcard, p.SendChanCap, backlog)
+		len(p.Sessions), p.NSock, p.V6, nb, rebind, burst, len(p.Garbage), p.AltEvery, tour, p.DropFirst, p.TargetOnly, p.Wildcard, p.SendChanCap, backlog,
+		ff[1], ff[2], ff[3], len(homes), interleave, crowd)
 }
